@@ -83,7 +83,13 @@ Examples:
 		// Set up the ELPS environment.
 		env := lisp.NewEnv(nil)
 		env.Runtime.Reader = parser.NewReader()
-		env.Runtime.Library = &lisp.FSLibrary{FS: os.DirFS(rootDir)}
+		// os.OpenRoot, not os.DirFS: see runElps.
+		root, rerr := os.OpenRoot(rootDir)
+		if rerr != nil {
+			fmt.Fprintf(os.Stderr, "cannot open root directory: %v\n", rerr)
+			os.Exit(1)
+		}
+		env.Runtime.Library = &lisp.FSLibrary{FS: root.FS()}
 		env.Runtime.Debugger = dbg
 
 		rc := lisp.InitializeUserEnv(env)
